@@ -161,6 +161,16 @@ def pin_stream_Merge : List String := ["func Merge[T0 any](p0 ...Stream[T0]) Str
   "v6.Wait()",
   "}"]
 
+/-- `Pipe` in `stream`: signature and full statement list, locals renamed positionally -/
+def pin_stream_Pipe : List String := ["func Pipe[T0 any](p0 int) (*PipeSender[T0], Stream[T0])",
+  "v0 := make(chan T0, p0)",
+  "v1 := make(chan struct{})",
+  "v2 := new(error)",
+  "v3 := make(chan struct{})",
+  "v4 := &PipeSender[T0]{c: v0, senderErr: v2, senderDone: v1, streamDone: v3}",
+  "v5 := &pipeStream[T0]{c: v0, senderErr: v2, senderDone: v1, streamDone: v3}",
+  "return v4, v5"]
+
 /-- `PipeSender.Close` in `stream`: signature and full statement list, locals renamed positionally -/
 def pin_stream_PipeSender_Close : List String := ["func (r *PipeSender[T]) Close(p0 error)",
   "*r.senderErr = p0",
